@@ -15,7 +15,7 @@ RULE = ('one run = one generated scenario (1-8 concurrent client conversations d
         'its own schedule; compared per connection: client byte stream, upstream byte stream, and the order of data / '
         'close events (chunking and timing ignored); non-trivial = at least two concurrent clients or more than one '
         'acceptor / worker; distinct = distinct combined event-log digests')
-PROBES = ['non_utf8_target', 'origin_closes', 'client_half_close', 'forward', 'forward_persistent', 'large_transfer', 'tunnel', 'web', 'reverse', 'malformed', 'refused',
+PROBES = ['upload_reset', 'non_utf8_target', 'origin_closes', 'client_half_close', 'forward', 'forward_persistent', 'large_transfer', 'tunnel', 'web', 'reverse', 'malformed', 'refused',
           'concurrent_clients', 'acceptors_gt1', 'workers_gt1', 'all_three_equal']
 COMPONENTS = {
     'real': ['proxy/proxy.py', 'proxy/core/acceptor/*.py', 'proxy/core/listener/*.py', 'proxy/core/work/threadless.py',
@@ -91,6 +91,14 @@ def run_world(tape: Any, scenario: Dict[str, Any], mode_args: List[str], nacc: i
                 script += [('send', b'CONNECT %s:443 HTTP/1.1\r\nHost: %s:443\r\n\r\n' % (ip.encode(), ip.encode()), 'burst'),
                            ('wait_rx', lambda pe: b'\r\n\r\n' in pe.rx), ('send', b'ping-%d' % k, 'burst'),
                            ('wait_rx', lambda pe, k=k: pe.rx.endswith(b'pong-%d' % k)), ('close',)]
+            elif role == 'upload_reset':
+                ans = (b'%d~' % k) * (cn['size'] // 3)
+                org = Origin(w, ip, 443, lambda i, ans=ans: [('pause_read',), ('wait_rx', lambda pe: pe.st is not None and len(pe.st.rx) > 0),
+                                                             ('send', ans, 'burst'), ('wait_drain',), ('sleep', 0.05), ('reset',)],
+                             name='o%d' % k, cap_in=1024)
+                script += [('send', b'CONNECT %s:443 HTTP/1.1\r\nHost: %s:443\r\n\r\n' % (ip.encode(), ip.encode()), 'burst'),
+                           ('wait_rx', lambda pe: b'\r\n\r\n' in pe.rx), ('pause_read',), ('send', b'U' * 20000, 'burst'),
+                           ('sleep', 1.0), ('resume_read',), ('wait_eof',), ('close',)]
             elif role == 'web':
                 tag = b'c%d' % k + (b'-%d' % cn['size'] if cn.get('size') else b'')
                 script += [('send', b'GET /web HTTP/1.1\r\nHost: l\r\nX-Req-Tag: ' + tag + b'\r\n\r\n', 'burst')]
@@ -111,7 +119,7 @@ def run_world(tape: Any, scenario: Dict[str, Any], mode_args: List[str], nacc: i
                             b' HTTP/1.1\r\nHost: 10.1.%d.9\r\n\r\n' % k, 'burst'),
                            ('wait_eof',), ('close',)]
             c = Peer(w, 'c%d' % k, script, read_mode='chunky')
-            capc = 1024 if cn.get('halfclose') else 65536
+            capc = 1024 if (cn.get('halfclose') or role == 'upload_reset') else 65536
             c.connect_fn = (lambda k=k, capc=capc: (lambda peer: w.actor_connect('127.0.0.1', 8899, cap_to_client=capc, label='c%d' % k)))()
             peers.append((c, org))
         w.settle(2.0, 600.0)
@@ -150,7 +158,7 @@ def run_one(tape: Any, cfg: Dict[str, Any], forbid: FrozenSet[str] = frozenset()
     conns: List[Dict[str, Any]] = []
     probes: List[str] = []
     for k in range(nclients):
-        role = ['forward', 'tunnel', 'web', 'reverse', 'malformed', 'refused'][tape.weighted([5, 3, 2, 2, 1, 1], 'role')]
+        role = ['forward', 'tunnel', 'web', 'reverse', 'malformed', 'refused', 'upload_reset'][tape.weighted([5, 3, 2, 2, 1, 1, 1], 'role')]
         cn: Dict[str, Any] = {'role': role}
         probes.append(role)
         if role == 'forward':
@@ -188,6 +196,10 @@ def run_one(tape: Any, cfg: Dict[str, Any], forbid: FrozenSet[str] = frozenset()
                 cn['halfclose'] = tape.coin(0.6, 'halfclose')
                 if cn['halfclose']:
                     probes.append('client_half_close')
+        elif role == 'upload_reset':
+            # a tunnel upload the origin never reads; it answers, waits until the proxy has taken the whole answer, and resets
+            # while the client is still far behind with its reading
+            cn['size'] = [3000, 40000][tape.draw(2, 'ur-size')]
         elif role == 'refused':
             cn['odd'] = tape.coin(0.3, 'odd-bytes')
             if cn['odd']:
